@@ -27,6 +27,8 @@ def main():
         m = json.load(open(mp))
         v = m.get('verified_by_verif', {})
         verd = '; '.join('%s %s' % (c, d['verdict']) for c, d in sorted(v.get('checks', {}).items()))
+        if m.get('triage'):
+            verd += ' — ' + esc(m['triage'])
         lines.append('| %s | %s (`%s`) | %s | %s |' % (sid, esc(m.get('summary', ''))[:260], esc(m.get('file', '')), esc(m.get('manifests_when', ''))[:200], verd))
     rp = os.path.join(VERIF, 'selftest', 'results.json')
     if os.path.exists(rp):
